@@ -12,7 +12,7 @@ theorem run_appendOnly_no_protected_removal (hc : Bool) (cmd : Cmd) (ops : List 
     have := List.all_eq_true.1 hl op hop
     simpa using this
   cases cmd with
-  | backup d => cases d <;> exact fin _ (by decide) h
+  | backup src d => cases d <;> exact fin _ (by decide) h
   | deleteSnapshots => simp [run] at h
   | saveSnapshots => exact fin _ (by decide) h
   | prunePlan => exact fin _ (by decide) h
